@@ -413,7 +413,10 @@ def _segment_single(parse_counter, train_text, grammar_file,
                        test=test_file,
                        category=category,
                        output=output_file))
-        codecs.open(script_file, 'w', encoding='utf8').write(command + '\n')
+        # pipefail: the script must fail when the ag program fails, not
+        # only when the last command of the pipeline (gzip) fails
+        codecs.open(script_file, 'w', encoding='utf8').write(
+            'set -o pipefail\n' + command + '\n')
 
         log.info('running "%s"', command)
 
